@@ -673,6 +673,11 @@ func runLayout(cfg *PropConfig, w *World) *FuncReport {
 	for _, g := range checkGenerated() {
 		add("generated:"+g.name, "checked-in "+g.name+" equals the output of cmd/generators/gen_ebpf_sync on common/consts/ebpf_sync_spec.json", g.ok, g.detail)
 	}
+	// ... and the generator writes the SAME value for each name into both files, namely the spec's, also for a spec
+	// whose values are not their list positions (the checked-in spec numbers most lists 1,2,3.. / 0,1,2..)
+	for _, g := range checkGeneratorAgreement() {
+		add("generated:agreement:"+g.name, "on a renumbered spec the generated Go constants and C definitions of "+g.name+" both carry the spec's values", g.ok, g.detail)
+	}
 
 	rep.Notes = append(rep.Notes, fmt.Sprintf("%d mirrored records, %d shared constants compared; C side: %d declarations extracted from tproxy.c + ebpf_sync_defs.h", len(pairs), len(cps)+1, len(needed)))
 	rep.Assumptions = append(rep.Assumptions,
@@ -868,50 +873,21 @@ func checkGenerated() []genResult {
 		}
 		return rs
 	}
-	tmp, err := os.MkdirTemp("", "govc-gen-")
+	spec, err := os.ReadFile(filepath.Join(repoDir, "common/consts/ebpf_sync_spec.json"))
 	if err != nil {
 		return bad(err.Error())
 	}
-	defer os.RemoveAll(tmp)
-	genDir := "cmd/generators/gen_ebpf_sync"
-	for _, d := range []string{"common/consts", "control/kern", genDir} {
-		os.MkdirAll(filepath.Join(tmp, d), 0o755)
-	}
-	os.WriteFile(filepath.Join(tmp, "go.mod"), []byte("module scratch\n\ngo 1.22\n"), 0o644)
-	cp := func(rel string) error {
-		b, err := os.ReadFile(filepath.Join(repoDir, rel))
-		if err != nil {
-			return err
-		}
-		return os.WriteFile(filepath.Join(tmp, rel), b, 0o644)
-	}
-	if err := cp("common/consts/ebpf_sync_spec.json"); err != nil {
-		return bad(err.Error())
-	}
-	ents, err := os.ReadDir(filepath.Join(repoDir, genDir))
+	out, err := runGenerator(spec)
 	if err != nil {
 		return bad(err.Error())
-	}
-	for _, en := range ents {
-		if strings.HasSuffix(en.Name(), ".go") && !strings.HasSuffix(en.Name(), "_test.go") {
-			if err := cp(filepath.Join(genDir, en.Name())); err != nil {
-				return bad(err.Error())
-			}
-		}
-	}
-	cmd := exec.Command("go", "run", "./"+genDir)
-	cmd.Dir = tmp
-	cmd.Env = append(os.Environ(), "GOFLAGS=-mod=mod", "GOWORK=off")
-	if out, err := cmd.CombinedOutput(); err != nil {
-		return bad("the generator does not run: " + err.Error() + ": " + firstLines(string(out), 5))
 	}
 	var rs []genResult
 	for _, f := range files {
-		want, err1 := os.ReadFile(filepath.Join(tmp, f))
+		want, ok := out[f]
 		have, err2 := os.ReadFile(filepath.Join(repoDir, f))
 		switch {
-		case err1 != nil:
-			rs = append(rs, genResult{f, false, "the generator wrote no such file: " + err1.Error()})
+		case !ok:
+			rs = append(rs, genResult{f, false, "the generator wrote no such file"})
 		case err2 != nil:
 			rs = append(rs, genResult{f, false, err2.Error()})
 		case !bytes.Equal(want, have):
@@ -921,6 +897,53 @@ func checkGenerated() []genResult {
 		}
 	}
 	return rs
+}
+
+// runGenerator runs the repository's generator (its current source) in a scratch module on the given spec and
+// returns what it writes.
+func runGenerator(spec []byte) (map[string][]byte, error) {
+	files := []string{"common/consts/ebpf_generated.go", "control/kern/ebpf_sync_defs.h"}
+	tmp, err := os.MkdirTemp("", "govc-gen-")
+	if err != nil {
+		return nil, err
+	}
+	defer os.RemoveAll(tmp)
+	genDir := "cmd/generators/gen_ebpf_sync"
+	for _, d := range []string{"common/consts", "control/kern", genDir} {
+		os.MkdirAll(filepath.Join(tmp, d), 0o755)
+	}
+	os.WriteFile(filepath.Join(tmp, "go.mod"), []byte("module scratch\n\ngo 1.22\n"), 0o644)
+	if err := os.WriteFile(filepath.Join(tmp, "common/consts/ebpf_sync_spec.json"), spec, 0o644); err != nil {
+		return nil, err
+	}
+	ents, err := os.ReadDir(filepath.Join(repoDir, genDir))
+	if err != nil {
+		return nil, err
+	}
+	for _, en := range ents {
+		if strings.HasSuffix(en.Name(), ".go") && !strings.HasSuffix(en.Name(), "_test.go") {
+			b, err := os.ReadFile(filepath.Join(repoDir, genDir, en.Name()))
+			if err != nil {
+				return nil, err
+			}
+			if err := os.WriteFile(filepath.Join(tmp, genDir, en.Name()), b, 0o644); err != nil {
+				return nil, err
+			}
+		}
+	}
+	cmd := exec.Command("go", "run", "./"+genDir)
+	cmd.Dir = tmp
+	cmd.Env = append(os.Environ(), "GOFLAGS=-mod=mod", "GOWORK=off")
+	if out, err := cmd.CombinedOutput(); err != nil {
+		return nil, fmt.Errorf("the generator does not run: %v: %s", err, firstLines(string(out), 5))
+	}
+	res := map[string][]byte{}
+	for _, f := range files {
+		if b, err := os.ReadFile(filepath.Join(tmp, f)); err == nil {
+			res[f] = b
+		}
+	}
+	return res, nil
 }
 
 func firstLines(s string, n int) string {
